@@ -1561,3 +1561,27 @@ def ext_prefixes():
     ps = ['github.com/prometheus/', '(*github.com/prometheus/', '(github.com/prometheus/', 'gopkg.in/DataDog/', '(*gopkg.in/DataDog/', 'net/http.NewServeMux', '(*net/http.ServeMux).',
           'net/http.Handle', 'opaque:ext.']
     return [(p, ext_any) for p in ps]
+
+
+def chan_select(ex, st, fr, ins):
+    """select with a default branch and one send case: the send succeeds only if a receiver is parked on the channel at that instant"""
+    used('select { case ch <- v: default: }: non-blocking send, succeeds iff a receiver is waiting at that instant, otherwise dropped')
+    sts = ins.get('states') or []
+    if ins.get('blocking') or len(sts) != 1 or sts[0]['dir'] != 'send':
+        raise Unsupported('select shape not modelled at %s' % ins.get('pos'))
+    ch = ex.ev(st, fr, sts[0]['chan'])
+    if not isinstance(ch, Chan):
+        raise Unsupported('select on nil channel')
+    s2 = st.clone()
+    s2.tid = getattr(st, 'tid', 0)
+    cev(st, 'trysend_ok', ch.cid, pos=ins.get('pos'))
+    cev(s2, 'trysend_dropped', ch.cid, pos=ins.get('pos'))
+    st.frames[-1].regs[ins['name']] = (bvval(0, 64), z3.BoolVal(False))
+    st.frames[-1].idx += 1
+    f2 = s2.frames[-1]
+    f2.regs[ins['name']] = (bvval(-1, 64), z3.BoolVal(False))
+    f2.idx += 1
+    return [s2, st]
+
+
+BASE.update({'chan:select': chan_select})
